@@ -3,8 +3,11 @@ package main
 // Typed Go data as script operands (round 3): values whose dynamic type is none of the seven JSON-like
 // ones. The Lean model sees such a value as `Val.ext ⟨ty, cmp, id, core⟩`:
 //
-//	ty    number of the dynamic type (position of its first value in typedTable)
-//	cmp   reflect.TypeOf(v).Comparable()
+//	ty    number of the dynamic type (position of its first value in typedTable); for a struct/array with an
+//	      interface-typed field also of the dynamic type held there
+//	tcmp  reflect.TypeOf(v).Comparable()
+//	cmp   Go == on two values of this ty is safe: tcmp, unless the value holds a slice or map in an
+//	      interface-typed field/element (then == panics: finding C12-iface-field-panic, model flag `i`)
 //	id    position of the first table value of the same type that is Go-== to it (own position for an
 //	      uncomparable type)
 //	core  what jp's Normalize switch is EXPECTED to turn it into: decided here from the documented list of
@@ -45,6 +48,7 @@ type typedRep struct {
 	v    any
 	ty   int
 	cmp  bool
+	tcmp bool
 	id   int
 	core string
 	tok  string
@@ -66,6 +70,10 @@ var typedValues = []any{
 	myInt(1), myInt(2), myInt64(1), myStr("a"), myStr("b"), myFloat(1.5), myBool(true), uintptr(1), complex128(1),
 	json.Number("1"), time.Duration(1), [2]int{1, 2}, [2]int{1, 3}, [1]string{"a"}, ptrA, ptrB, cmpStruct{1, "a"}, cmpStruct{1, "b"},
 	gen.Big("1"),
+	// comparable TYPE, but == on two such values panics (they hold a slice or map in an interface-typed field);
+	// and values of the same types on which == is safe
+	ifaceStruct{X: []int{1}}, ifaceStruct{X: []any{int64(1)}}, ifaceStruct{X: map[string]any{}}, [1]any{[]int{1}},
+	ifaceStruct{X: int64(1)}, ifaceStruct{X: int64(2)}, ifaceStruct{X: "a"}, [1]any{"a"}, ifaceStruct{},
 	// uncomparable typed containers: equal to nothing, not even themselves
 	[]int{1, 2}, []int{}, []int{1}, []string{"x"}, []float64{1.5}, map[string]int{"k": 1}, map[string]int{}, sliceStruct{Tags: []string{"x"}}, sliceStruct{},
 	gen.Array{gen.Int(1)}, gen.Array{}, gen.Object{"a": gen.Int(1)}, gen.Object{}, myList{int64(1)}, myMap{}, [1][]int{{1}}, []map[string]any{{}},
@@ -122,17 +130,36 @@ func coreOf(v any) string {
 	return "-"
 }
 
+// heldType: for the two types with an interface-typed field/element, what the field holds.
+func heldType(v any) (reflect.Type, bool) {
+	switch t := v.(type) {
+	case ifaceStruct:
+		return reflect.TypeOf(t.X), true
+	case [1]any:
+		return reflect.TypeOf(t[0]), true
+	}
+	return nil, false
+}
+
 func init() {
-	tyOf := map[reflect.Type]int{}
+	tyOf := map[string]int{}
 	for i, v := range typedValues {
 		rt := reflect.TypeOf(v)
-		if _, ok := tyOf[rt]; !ok {
-			tyOf[rt] = i + 1
+		key := rt.String()
+		safe := rt.Comparable()
+		if ht, ok := heldType(v); ok {
+			key += "|" + fmt.Sprint(ht)
+			if ht != nil && !ht.Comparable() {
+				safe = false
+			}
 		}
-		r := &typedRep{v: v, ty: tyOf[rt], cmp: rt.Comparable(), id: i, core: coreOf(v)}
+		if _, ok := tyOf[key]; !ok {
+			tyOf[key] = i + 1
+		}
+		r := &typedRep{v: v, ty: tyOf[key], cmp: safe, tcmp: rt.Comparable(), id: i, core: coreOf(v)}
 		if r.cmp {
 			for j := 0; j < i; j++ {
-				if reflect.TypeOf(typedValues[j]) == rt && typedValues[j] == v {
+				if typedTable[j].ty == r.ty && typedValues[j] == v {
 					r.id = j
 					break
 				}
@@ -146,11 +173,14 @@ func init() {
 		default:
 			r.kind = "container"
 		}
-		c := 0
+		c, tc := 0, 0
 		if r.cmp {
 			c = 1
 		}
-		r.tok = fmt.Sprintf("x%d,%d,%d,%s", r.ty, c, r.id, r.core)
+		if r.tcmp {
+			tc = 1
+		}
+		r.tok = fmt.Sprintf("x%d,%d,%d,%s,%d", r.ty, c, r.id, r.core, tc)
 		typedTable = append(typedTable, r)
 		if _, dup := typedByKey[typedKey(v)]; !dup {
 			typedByKey[typedKey(v)] = r
@@ -179,6 +209,7 @@ func typedReps(full bool) []any {
 		int8(1), int16(1), uint64(1) << 63, float32(1.5), gen.Bool(true), gen.Int(1), gen.String("a"),
 		myInt(1), myInt(2), myStr("a"), [2]int{1, 2}, ptrA, ptrB, cmpStruct{1, "a"},
 		[]int{1, 2}, map[string]int{"k": 1}, sliceStruct{Tags: []string{"x"}}, gen.Array{gen.Int(1)}, gen.Object{}, myList{int64(1)},
+		ifaceStruct{X: []int{1}}, [1]any{[]int{1}}, ifaceStruct{X: int64(1)},
 	}
 }
 
@@ -268,8 +299,9 @@ func typedMatrix(full bool, emit func(kase)) (cells int) {
 //
 // A struct or array type with an interface-typed field/element is Comparable() by reflection, but Go's ==
 // panics at run time when both sides hold the same uncomparable dynamic type in that field. sameValue's guard
-// looks at the type only. These values are outside the model (see registry, assumptions); this family runs the
-// implementation alone against the property's own words: no panic, == false, != true, in false.
+// looks at the type only. Since the model carries this deviation (Dev.ifaceTrap, -dev i) these values are also
+// in the typed table above and go through the typed matrix; this family additionally runs the implementation
+// alone against the property's own words: no panic, == false, != true, in false.
 
 const ifaceID = "C12-iface-field-panic"
 
